@@ -25,6 +25,12 @@ C11_text_facts_pinned; correspondence shards c11_imports (import lines + NameErr
 Imports.v) and c11_calls (accept / refuse of every helper call shape against CallDefaults.v); streams `nonfinite`
 (harness/c11_emit.py) and `helpers` (functions calling helpers with defaulted trailing parameters).
 
+Third pass (seeded changes C11-7 / C11-8): two more regenerated facts about source_tools.py (gen_name_lookup: _handle_name consults
+the function's own symbols before the numbers of the module; gen_scan_mode: the module is scanned at every call), pinned by
+C11_translator_facts_pinned; correspondence shard c11_names (harness/c11_names.py against NameScope.v); streams `shadow` (parameters /
+local variables named like module-level numbers), `session` (several generations in this one process, helpers / numbers of a fresh
+module object rebound in between; every generation is an ordinary case) and `names`.
+
 Two states of the tree are understood (regenerated fact `register`): the snapshot's
 `functions[key] = ...` (three recorded findings, theorem C11_roundtrip_partial) and the repaired
 `_register_fn` of fixes/C11-function-name-collisions.diff (theorem C11_roundtrip, nothing recorded).
@@ -42,7 +48,7 @@ import signal
 import sys
 from typing import Any
 
-from harness import c11_emit, c11_extract, common
+from harness import c11_emit, c11_extract, c11_names, common
 from harness.common import Run, cbool, clist, cn, cnat, cstr, cz
 
 AREA = "mxlgen"
@@ -94,7 +100,7 @@ def gen() -> dict:
         "(* REGENERATED from src/mxlpy/meta/codegen_mxlpy.py and sympy_tools.py by harness/c11.py; do not edit.\n"
         "   An unrecognised key expression yields KsUnknown, a changed function body yields false; either\n"
         "   breaks C11_facts_pinned. *)\n"
-        "From Coq Require Import List.\nFrom MxlGen Require Import SymRepr Imports CallDefaults.\nImport ListNotations.\n"
+        "From Coq Require Import List.\nFrom MxlGen Require Import SymRepr Imports CallDefaults NameScope Session.\nImport ListNotations.\n"
         f"Definition gen_mxlgen_facts : gen_facts := mkGenFacts {f['var_key']} {f['par_key']} {f['der_key']} "
         f"{f['rxn_key']} {f['sto_key']} {f['register']} {f['codegen_shape']} {f['symrepr_shape']} "
         f"{f['param_check']} {f['interchange']} {f['rename']} {f['emit']}.\n"
@@ -103,6 +109,10 @@ def gen() -> dict:
         f"Definition gen_import_scan : option scan_table := {f['import_scan']}.\n"
         "(* how fn_to_sympy (source_tools.py) binds the arguments of a translated call to the callee's parameters *)\n"
         f"Definition gen_call_defaults : df_mode := {f['call_defaults']}.\n"
+        "(* _handle_name (source_tools.py): the function's own symbols before the numbers of the module, or the other way round *)\n"
+        f"Definition gen_name_lookup : nl_mode := {f['name_lookup']}.\n"
+        "(* when the translator scans a module for callables / sub-modules / numbers: at every call, or once per process *)\n"
+        f"Definition gen_scan_mode : scan_mode := {f['scan_mode']}.\n"
     )
     common.write_if_changed(common.area_dir(AREA) / "GenMxlGenFacts.v", text)
     return f
@@ -166,6 +176,35 @@ _EXTRA = [
     ("a", "neg1", 1, None, (1, [0])),  # 38  hneg(a, m=1, z=0) called hneg(a): ALL defaults omitted
     ("a", "add2full", 2, None, (2, [0, 1])),  # 39  hadd(a, b, 0): every argument passed
     ("a", "quad2", 7, None, (2, [0, 1])),  # 40  hq(a, b, m=3, o=1) called hq(a, b, 3): a literal for the first default
+    # --- closing pass 3 (seeded C11-8): module "c" has module-level NUMBERS named like the parameters of its functions
+    #     (a = 7.0, b = 3, c = 2.0: a script that keeps its default numbers under the names its rate functions use);
+    #     inside the functions the name is the PARAMETER, whatever is passed for it
+    ("c", "sh_sub", 3, True),  # 41  a - b
+    ("c", "sh_mix", 5, True),  # 42  a*b + c
+    ("c", "sh_poly", 7, True),  # 43  a*a - 3*b + 1
+    #     module "d": module-level numbers named like LOCAL VARIABLES of its functions (w = 5.0, n = 2) and two genuine
+    #     constants read as globals (KONE = 1.0, KZERO = 0.0)
+    ("d", "loc_mix", 5, True, (3, [0, 1, 2])),  # 44  w = a * b; return w + c
+    ("d", "loc_poly", 7, True, (2, [0, 1])),  # 45  n = a * a; w = 3 * b; return n - w + 1
+    ("d", "glob_mul", 4, True, (2, [0, 1])),  # 46  KONE * a * b + KZERO
+    # --- closing pass 3 (seeded C11-7): module "s" -- callers of module-level helpers / readers of module-level numbers
+    #     that are REBOUND between two generations in one process.  One Python object per caller; the table has one entry per
+    #     (caller, version of what it refers to): id = S0 + 3*j + v.  A fresh module object is made for every session.
+    ("s", "sat2", 4, True, (2, [0, 1])),  # 47  hsat(a, b), hsat = hv_mul
+    ("s", "sat2", 2, True, (2, [0, 1])),  # 48                hsat = hv_add
+    ("s", "sat2", 3, True, (2, [0, 1])),  # 49                hsat = hv_sub
+    ("s", "sat2r", 4, True, (2, [1, 0])),  # 50  hsat(b, a)
+    ("s", "sat2r", 2, True, (2, [1, 0])),  # 51
+    ("s", "sat2r", 3, True, (2, [1, 0])),  # 52
+    ("s", "one1", 0, True, (1, [0])),  # 53  hone(a), hone = hu_id
+    ("s", "one1", 1, True, (1, [0])),  # 54           hone = hu_neg
+    ("s", "one1", 6, True, (1, [0])),  # 55           hone = hu_sq
+    ("s", "lin1", 2, True, (2, [0, 1])),  # 56  hone(a) + b
+    ("s", "lin1", 3, True, (2, [1, 0])),  # 57
+    ("s", "lin1", 5, True, (2, [0, 0, 1])),  # 58
+    ("s", "wsum", 2, True, (2, [0, 1])),  # 59  KA * a + KB * b, (KA, KB) = (1.0, 1.0)
+    ("s", "wsum", 3, True, (2, [0, 1])),  # 60                             (1.0, -1.0)
+    ("s", "wsum", 3, True, (2, [1, 0])),  # 61                             (-1.0, 1.0)
 ]
 # helpers (module a and b alike) and the callers' bodies
 HELPERS_SRC = """
@@ -205,6 +244,77 @@ CUSTOM_SRC = {
 # (callee parameters, number of defaults, number of arguments passed) of the one nested call of each object
 HELPER_CALLS = {34: (4, 2, 3), 35: (4, 2, 3), 36: (3, 2, 2), 37: (3, 1, 2), 38: (3, 2, 1), 39: (3, 2, 3), 40: (4, 2, 3)}
 HELPER_OBJS = sorted(CUSTOM_SRC)
+# module headers of the generated modules (module "s": SESSION_SRC, one module object per session)
+MOD_HEADER = {
+    "a": HELPERS_SRC,
+    "b": HELPERS_SRC,
+    "c": "a = 7.0\nb = 3\nc = 2.0\n\n",
+    "d": "w = 5.0\nn = 2\nKONE = 1.0\nKZERO = 0.0\n\n",
+}
+SHADOW_SRC = {
+    44: "def loc_mix(a, b, c):\n    w = a * b\n    return w + c\n\n",
+    45: "def loc_poly(a, b):\n    n = a * a\n    w = 3 * b\n    return n - w + 1\n\n",
+    46: "def glob_mul(a, b):\n    return KONE * a * b + KZERO\n\n",
+}
+SHADOW_OBJS = [41, 42, 43, 44, 45, 46]
+S0 = 47  # first session id; id = S0 + 3 * caller + version
+SESSION_CALLERS = ["sat2", "sat2r", "one1", "lin1", "wsum"]
+SESSION_REF = ["hsat", "hsat", "hone", "hone", "kab"]  # what caller j refers to
+SESSION_VERSIONS = {
+    "hsat": [{"hsat": "hv_mul"}, {"hsat": "hv_add"}, {"hsat": "hv_sub"}],  # module attribute := that function of the module
+    "hone": [{"hone": "hu_id"}, {"hone": "hu_neg"}, {"hone": "hu_sq"}],
+    "kab": [{"KA": 1.0, "KB": 1.0}, {"KA": 1.0, "KB": -1.0}, {"KA": -1.0, "KB": 1.0}],  # module attribute := that number
+}
+SESSION_SRC = """# generated by harness/c11.py: helpers and numbers of this module are rebound between two generations
+def hv_mul(a, b):
+    return a * b
+
+
+def hv_add(a, b):
+    return a + b
+
+
+def hv_sub(a, b):
+    return a - b
+
+
+def hu_id(a):
+    return a
+
+
+def hu_neg(a):
+    return -a
+
+
+def hu_sq(a):
+    return a * a
+
+
+hsat = hv_mul
+hone = hu_id
+KA = 1.0
+KB = 1.0
+
+
+def sat2(a, b):
+    return hsat(a, b)
+
+
+def sat2r(a, b):
+    return hsat(b, a)
+
+
+def one1(a):
+    return hone(a)
+
+
+def lin1(a, b):
+    return hone(a) + b
+
+
+def wsum(a, b):
+    return KA * a + KB * b
+"""
 _OK_OBSERVED: dict[int, bool] = {}  # filled by Fns.__init__ for the objects whose entry says None
 N_LIB = 11
 F_CONSTANT = 22
@@ -270,13 +380,13 @@ class Fns:
 
         self.dir = common.scratch_dir("c11")
         self.tag = f"c11_{self.dir.name.replace('-', '_')}"
-        src = {"a": ["# generated by harness/c11.py\n", HELPERS_SRC], "b": ["# generated by harness/c11.py\n", HELPERS_SRC]}
+        src = {m: ["# generated by harness/c11.py\n", h] for m, h in MOD_HEADER.items()}
         for i, e in enumerate(_EXTRA):
             mod, name, sem, _ok, _ar, _sel = _extra(e)
-            if mod == "x":
+            if mod in ("x", "s"):
                 continue
-            if N_LIB + i in CUSTOM_SRC:
-                src[mod].append(CUSTOM_SRC[N_LIB + i])
+            if N_LIB + i in CUSTOM_SRC or N_LIB + i in SHADOW_SRC:
+                src[mod].append(CUSTOM_SRC.get(N_LIB + i) or SHADOW_SRC[N_LIB + i])
                 continue
             params, body = obj_source(N_LIB + i)
             if name == "bad_index":
@@ -286,7 +396,7 @@ class Fns:
             else:
                 src[mod].append(f"def {name}({', '.join(params)}):\n    return {body}\n\n")
         self.modnames = {}
-        for mod in ("a", "b"):
+        for mod in MOD_HEADER:
             mn = f"{self.tag}_mod{mod}"
             (self.dir / f"{mn}.py").write_text("\n".join(src[mod]))
             self.modnames[mod] = mn
@@ -295,11 +405,15 @@ class Fns:
         mods = {k: importlib.import_module(v) for k, v in self.modnames.items()}
         from mxlpy import fns as mfns
 
+        self.n_sessions = 0
+        self.session_mod: Any = None
         self.objs: list[Any] = list(fnlib.FNS[:N_LIB])
         for e in _EXTRA:
             mod, name = e[0], e[1]
             if mod == "x":
                 self.objs.append(mfns.constant)
+            elif mod == "s":
+                self.objs.append(None)  # bound by new_session()
             elif name == "<lambda>":
                 self.objs.append(mods[mod].lam)
             else:
@@ -308,11 +422,34 @@ class Fns:
         # once per object, with the call _fn_to_symbolic_repr makes; the round-trip oracle then demands: refused => generation
         # raises, accepted => the rebuilt model behaves like the source)
         self.observe_translatable()
+        self.new_session()
         # the table and the objects must agree (name, meaning)
         for i, (name, sem, ar, _ok) in enumerate(table()):
+            if i >= S0:  # entry = (caller, version of what it refers to)
+                j, v = divmod(i - S0, 3)
+                self.rebind({SESSION_REF[j]: v})
             assert self.objs[i].__name__ == name, (i, name, self.objs[i].__name__)
             pt = [3, 5, 7][:ar]
             assert self.objs[i](*pt) == obj_sem(i, pt), (i, name)
+
+    def new_session(self) -> None:
+        """A FRESH module object holding the callers / helpers / numbers of the `session` stream (its own file, so that
+        inspect finds the sources): nothing a translator may have remembered about an earlier module applies to it."""
+        self.n_sessions += 1
+        mn = f"{self.tag}_s{self.n_sessions}"
+        (self.dir / f"{mn}.py").write_text(SESSION_SRC)
+        importlib.invalidate_caches()
+        self.session_mod = importlib.import_module(mn)
+        self.modnames[f"s{self.n_sessions}"] = mn
+        for j, caller in enumerate(SESSION_CALLERS):
+            for v in range(3):
+                self.objs[S0 + 3 * j + v] = getattr(self.session_mod, caller)
+
+    def rebind(self, binding: dict[str, int]) -> None:
+        """Rebind helpers / numbers of the current session module: {"hsat": version, "hone": version, "kab": version}."""
+        for what, v in binding.items():
+            for attr, val in SESSION_VERSIONS[what][v].items():
+                setattr(self.session_mod, attr, getattr(self.session_mod, val) if isinstance(val, str) else val)
 
     def observe_translatable(self) -> None:
         import logging
@@ -540,6 +677,107 @@ def gen_helpers(rng) -> dict:
     for k in ("par", "var", "der", "rxn"):
         rng.shuffle(desc[k])
     return desc
+
+
+def _small_model(rng, objs_uses, lib_extra: int, second_list_p: float) -> dict:
+    """2-3 variables, 1-3 parameters, the given function objects each under one or two argument lists (one function serving
+    two components with DIFFERENT arguments), a few library functions; placed into random kinds of slots."""
+    tab = table()
+    nxt = [10]
+
+    def fresh() -> int:
+        nxt[0] += 1
+        return nxt[0]
+
+    desc: dict[str, list] = {"par": [], "var": [], "der": [], "rxn": []}
+    vals = rng.sample([-3, -2, -1, 2, 3, 4, 5, 6], 7)
+    variables: list[int] = []
+    params: list[int] = []
+    for _ in range(rng.randint(2, 3)):
+        n = fresh()
+        desc["var"].append((n, ("plain", vals.pop())))
+        variables.append(n)
+    for _ in range(rng.randint(1, 3)):
+        n = fresh()
+        desc["par"].append((n, ("plain", vals.pop())))
+        params.append(n)
+    have = variables + params
+    uses: list[tuple[int, list[int]]] = []
+    for f in objs_uses:
+        ar = tab[f][2]
+        pool = have + ([0] if rng.random() < 0.15 else [])
+        a = rng.sample(pool, ar) if rng.random() < 0.85 else [rng.choice(pool) for _ in range(ar)]
+        uses.append((f, a))
+        if rng.random() < second_list_p:
+            uses.append((f, rng.sample(have, ar)))
+    for _ in range(lib_extra):
+        f = rng.choice([2, 3, 4, 5, 9])
+        uses.append((f, rng.sample(have, tab[f][2])))
+    rng.shuffle(uses)
+    _place(rng, desc, nxt, uses, variables, params)
+    if not desc["rxn"] and rng.random() < 0.7:
+        desc["rxn"].append((fresh(), 0, [rng.choice(variables)], [(rng.choice(variables), ("stat", 1))]))
+    for k in ("par", "var", "der", "rxn"):
+        rng.shuffle(desc[k])
+    return desc
+
+
+def gen_shadow(rng) -> dict:
+    """Stream `shadow` (own rng): functions whose PARAMETERS (module c) or LOCAL VARIABLES (module d) are named like a
+    module-level int / float of the module that defines them, and one that reads genuine module-level numbers.  In Python the
+    parameter / local variable hides the module-level number; the emitted definition has to do the same."""
+    r = rng.random()
+    if r < 0.5:
+        objs = [rng.choice(SHADOW_OBJS[:5])]
+    else:
+        objs = rng.sample(SHADOW_OBJS, rng.randint(2, 3))
+    return _small_model(rng, objs, rng.randint(0, 2), 0.6)
+
+
+def gen_session(rng) -> dict:
+    """Stream `session` (own rng): ONE process, one module; a model whose functions call module-level helpers / read
+    module-level numbers is generated, the helpers / numbers are rebound in the module (the function objects of the model
+    stay the same), the model -- the same Model object or a newly built one -- is generated again; 2-4 generations.
+    -> {"base": desc over the version-0 ids, "binds": [binding per step], "reuse": same Model object for every step}"""
+    js = rng.sample(range(len(SESSION_CALLERS)), rng.choice([1, 1, 2, 2, 3]))
+    base = _small_model(rng, [S0 + 3 * j for j in js], rng.randint(0, 2), 0.4)
+    refs = sorted({SESSION_REF[j] for j in js})
+    cur = {w: rng.randrange(3) for w in SESSION_VERSIONS}
+    binds = [dict(cur)]
+    for _ in range(rng.choice([1, 1, 1, 2, 3])):
+        r = rng.random()
+        if r < 0.8:  # something the model's functions refer to is rebound
+            w = rng.choice(refs)
+            cur[w] = rng.choice([v for v in range(3) if v != cur[w]])
+        elif r < 0.9:  # something else of the module
+            w = rng.choice(sorted(SESSION_VERSIONS))
+            cur[w] = rng.randrange(3)
+        # else: nothing changes between the two generations
+        binds.append(dict(cur))
+    return {"base": base, "binds": binds, "reuse": rng.random() < 0.5}
+
+
+def versioned(desc: dict, binding: dict[str, int]) -> dict:
+    """The description of the model AS IT IS under `binding`: every session caller id becomes the id of (caller, version)."""
+
+    def vf(f: int) -> int:
+        if f < S0:
+            return f
+        j = (f - S0) // 3
+        return S0 + 3 * j + binding[SESSION_REF[j]]
+
+    def valia(v):
+        return v if v[0] == "plain" else ("ia", vf(v[1]), list(v[2]))
+
+    def coef(c):
+        return c if c[0] != "dyn" else ("dyn", vf(c[1]), list(c[2]))
+
+    return {
+        "par": [(n, valia(v)) for n, v in desc["par"]],
+        "var": [(n, valia(v)) for n, v in desc["var"]],
+        "der": [(n, vf(f), list(a)) for n, f, a in desc["der"]],
+        "rxn": [(n, vf(f), list(a), [(c, coef(cf)) for c, cf in st]) for n, f, a, st in desc["rxn"]],
+    }
 
 
 def gen_desc(rng, kind: str, max_comp: int = 7) -> dict:
@@ -910,15 +1148,16 @@ def parse_source(src: str) -> tuple[list[tuple[str, list[str]]], list[tuple]]:
 SAMPLE_PTS = ([2, 3, 5], [-1, 2, -3])
 
 
-def run_impl(desc: dict, fns: Fns, states) -> dict:
-    """-> {"tag", "src", "defs", "chain", "pts", "obs", "err"}  (tags as in Corr.v)"""
+def run_impl(desc: dict, fns: Fns, states, model: Any = None) -> dict:
+    """-> {"tag", "src", "defs", "chain", "pts", "obs", "err"}  (tags as in Corr.v); `model`: generate for THIS Model object
+    (a later step of a session) instead of building one from the description"""
     from mxlpy.meta.codegen_mxlpy import generate_mxlpy_code
 
     out: dict = {"tag": 5, "src": None, "defs": [], "chain": [], "pts": [], "obs": None, "err": None, "rebuilt": None}
     signal.signal(signal.SIGALRM, _alarm)
     signal.setitimer(signal.ITIMER_REAL, 30.0)
     try:
-        m = build(desc, fns)
+        m = build(desc, fns) if model is None else model
         out["source_model"] = m
         try:
             src = generate_mxlpy_code(m)
@@ -1006,6 +1245,17 @@ def oracle(desc: dict, r: dict, states) -> str | None:
 # ---------------------------------------------------------------------------------------
 # (2) correspondence
 # ---------------------------------------------------------------------------------------
+
+
+def _eval_many(files: dict[str, str], timeout_s: int) -> dict:
+    """common.coq_eval_many; shards that fail with "inconsistent assumptions" (a read-only dependency of the area was rebuilt
+    by another process after this area was built) are evaluated once more after a rebuild."""
+    res = common.coq_eval_many(AREA, files, timeout_s=timeout_s)
+    stale = {n: t for n, t in files.items() if not res[n][0] and "nconsistent assumptions" in res[n][1]}
+    if stale:
+        common.coq_build(AREA)
+        res.update(common.coq_eval_many(AREA, stale, timeout_s=timeout_s))
+    return res
 
 
 def coq_table() -> str:
@@ -1187,6 +1437,32 @@ CORPUS_HELPERS = [
 ]
 
 
+# third corpus (own streams, after everything else).  Shapes of seeded change C11-8: one function of module c serving two
+# components with different arguments (its parameters are named like numbers of the module), a function of module d whose
+# local variable is named like a number of the module and is COMPUTED.
+CORPUS_SHADOW = [
+    {"par": [(11, ("plain", 7)), (12, ("plain", 3)), (13, ("plain", 2)), (14, ("ia", 2, [12, 12]))],
+     "var": [(15, ("plain", 2)), (16, ("ia", 2, [15, 15]))],
+     "der": [(17, 44, [16, 13, 12])],
+     "rxn": [(18, 41, [15, 12], [(15, ("stat", -1)), (16, ("stat", 1))]), (19, 41, [16, 14], [(16, ("stat", -1))])]},
+    {"par": [(11, ("plain", 2)), (12, ("plain", 5))], "var": [(13, ("plain", 3)), (14, ("plain", -1))],
+     "der": [(15, 45, [13, 11]), (16, 42, [13, 14, 12]), (17, 46, [15, 11])],
+     "rxn": [(18, 43, [14, 13], [(13, ("stat", 1)), (14, ("dyn", 42, [11, 12, 13]))])]},
+]
+# Shapes of seeded change C11-7: generate, rebind the helper the rate function calls, generate again (the same Model object;
+# a newly built one), also back to the first helper and with a module-level NUMBER rebound.
+CORPUS_SESSION = [
+    {"base": {"par": [(11, ("plain", 2)), (12, ("plain", 4))], "var": [(13, ("plain", 3)), (14, ("plain", 5))],
+              "der": [(15, S0 + 3, [13, 11])],
+              "rxn": [(16, S0, [13, 11], [(13, ("stat", -1)), (14, ("dyn", 2, [15, 12]))]), (17, 4, [14, 12], [(14, ("stat", -1))])]},
+     "binds": [{"hsat": 0, "hone": 0, "kab": 0}, {"hsat": 1, "hone": 0, "kab": 0}, {"hsat": 0, "hone": 0, "kab": 0}], "reuse": True},
+    {"base": {"par": [(11, ("plain", 3))], "var": [(12, ("plain", 2)), (13, ("plain", -2))],
+              "der": [(14, S0 + 9, [12, 11]), (15, S0 + 12, [13, 12])],
+              "rxn": [(16, S0 + 6, [14], [(12, ("stat", 1)), (13, ("stat", -2))])]},
+     "binds": [{"hsat": 2, "hone": 1, "kab": 1}, {"hsat": 2, "hone": 2, "kab": 1}, {"hsat": 2, "hone": 2, "kab": 2}], "reuse": False},
+]
+
+
 def _tupled(desc: dict) -> dict:
     """JSON round trip turns tuples into lists; normalise back."""
 
@@ -1204,12 +1480,41 @@ def _tupled(desc: dict) -> dict:
     }
 
 
+def _session_tupled(se: dict) -> dict:
+    return {"base": _tupled(se["base"]), "binds": [dict(b) for b in se["binds"]], "reuse": bool(se["reuse"])}
+
+
+def _session_refs(base: dict) -> list[str]:
+    """what (helpers / numbers of the session module) the functions of the model refer to"""
+    return sorted({SESSION_REF[(s["f"] - S0) // 3] for s in slots_of(base) if s["f"] >= S0})
+
+
+def _touch(model: Any, base: dict) -> Any:
+    """The SAME Model object at a later step of a session: a value-preserving public edit (a plain parameter is set to the
+    value it has) makes the model drop what it computed before the rebinding (initial assignments, derived parameters), as
+    any further work on the model would."""
+    for n, v in base["par"]:
+        if v[0] == "plain":
+            model.update_parameter(nm(n), v[1])
+            break
+    return model
+
+
 def describe(desc: dict) -> dict:
     """Human-readable form of a case for replay files."""
     tab = table()
 
     def fn(f):
-        mod = "harness.fnlib" if f < N_LIB else {"a": "moda", "b": "modb", "x": "mxlpy.fns"}[_EXTRA[f - N_LIB][0]]
+        tag = "" if f < N_LIB else _EXTRA[f - N_LIB][0]
+        mod = "harness.fnlib" if f < N_LIB else {"x": "mxlpy.fns"}.get(tag, "mod" + tag)
+        if tag == "s":
+            j, v = divmod(f - S0, 3)
+            caller = SESSION_SRC.split(f"def {SESSION_CALLERS[j]}(")[1].split("\n\n")[0]
+            return f"mods: def {SESSION_CALLERS[j]}(" + " ".join(caller.split()) + f"  # with {SESSION_VERSIONS[SESSION_REF[j]][v]}"
+        if f in SHADOW_SRC or tag in ("c", "d"):
+            own, body = obj_source(f)
+            text = SHADOW_SRC.get(f) or f"def {tab[f][0]}({', '.join(own)}): return {body}"
+            return f"{mod}: " + " ".join(text.split()) + "  # module-level numbers: " + "; ".join(MOD_HEADER[tag].split("\n")[:-2])
         if f in CUSTOM_SRC:
             return f"{mod}: " + " ".join(CUSTOM_SRC[f].split()) + "  # helpers: " + "; ".join(
                 " ".join(h.split()) for h in HELPERS_SRC.strip().split("\n\n\n")
@@ -1258,9 +1563,29 @@ def check(run: Run) -> None:
         "the older cases): rate / derived / coefficient / initial-assignment functions whose body calls a helper with defaulted trailing "
         "parameters (first of two defaults passed, one default omitted, all omitted, all passed, literal passed); whether the tree "
         "translates such an object is observed from fn_to_sympy once per run: refused => generation must raise, accepted => the "
-        "rebuilt model must behave like the source."
+        "rebuilt model must behave like the source.  Shadow stream (own rng): functions of generated modules that keep int / float numbers "
+        "under the names of the functions' parameters (a, b, c) or local variables (w, n), one function under one or two argument lists.  "
+        "Session stream (own rng): 2-4 generations in this process on a fresh module object; between two generations a helper the model's "
+        "functions call (hsat, hone) or a module-level number they read (KA, KB) is rebound while the function objects stay the same; the "
+        "same Model object (after a value-preserving update_parameter) or a newly built one; every generation is judged against the model as it "
+        "is at that moment.  Names stream (own rng, harness/c11_names.py): generated straight-line functions in modules with numbers under the "
+        "functions' own names; one-derived models through generate / exec."
     )
     proofs_ok = run.check_proofs(AREA, PROPS)
+    if run.broken_obligations and all(b.startswith("coqchk rejected") and "nconsistent assumptions" in b for b in run.broken_obligations):
+        # thorough tier only: coq/core (a read-only dependency, owned by C01/C02/C13) was rebuilt by another process between
+        # the build of this area and the independent checker's pass over the .vo files ("Inconsistent assumptions over
+        # module Core.GenSortFacts").  A genuine rejection is deterministic: rebuild on the quiescent files, re-run the
+        # checker once and keep that verdict.
+        import time
+
+        first = list(run.broken_obligations)
+        run.broken_obligations.clear()
+        time.sleep(3)
+        common.coq_build(AREA)
+        run._coqchk(AREA, PROPS)  # noqa: SLF001
+        proofs_ok = not run.broken_obligations
+        run.note(f"coqchk was re-run once after a rebuild, because of: {first[0][:160]} -> {'accepted' if proofs_ok else 'rejected again'}")
     if facts.get("register") == "RegFresh":
         run.note("the tree stores generated definitions with _register_fn (RegFresh): covered by theorem C11_roundtrip (full statement, no guard)")
     elif facts.get("register") == "RegOverwrite":
@@ -1290,6 +1615,12 @@ def check(run: Run) -> None:
         "bodies is read from the generated file; the substring test f'{module}.' in body is taken as 'the section mentions the module'",
         "binding of nested calls: CPython's positional call with right-aligned defaults is [py_bind] (modelled); translatability of the "
         "helper-calling function objects is observed from fn_to_sympy itself (the translator is external to C11: property C06/C07)",
+        "resolution of names: CPython's scoping (a name assigned anywhere in a function is local) is [py_call] of NameScope.v (modelled); the "
+        "model covers straight-line bodies over + - * with integer-valued numbers; which module numbers the scan finds (floats / ints too) is "
+        "read from the predicate in the source (harness/c11_names.py scan_kind)",
+        "several generations in one process: a module state is a `world`, per-function translation soundness is assumed in every world "
+        "(C11_every_generation_of_a_session); that the translator looks at the current world is the syntactic fact gen_scan_mode, validated by "
+        "the session stream",
     ]
 
     rng = common.rng_for(run.seed, "c11")
@@ -1317,6 +1648,27 @@ def _run_cases(run: Run, rng, fns: Fns, thorough: bool, proofs_ok: bool) -> None
     for _ in range(260 if thorough else 40):
         cases.append(("helpers", gen_helpers(rng_h)))
 
+    # closing pass 3, again own corpora + own streams + own rngs AFTER the older cases:
+    #   shadow   parameters / local variables named like module-level numbers of the defining module (seeded C11-8)
+    #   session  several generations in this one process with helpers / numbers of the module rebound in between (seeded C11-7);
+    #            every step is an ordinary case (the model AS IT IS at that step), the steps of a session follow each other
+    rng_sh = common.rng_for(run.seed, "c11-shadow")
+    first_shadow_case = len(cases)
+    cases += [("corpus_shadow", _tupled(d)) for d in CORPUS_SHADOW]
+    for _ in range(170 if thorough else 30):
+        cases.append(("shadow", gen_shadow(rng_sh)))
+    rng_se = common.rng_for(run.seed, "c11-session")
+    first_session_case = len(cases)
+    sessions = [_session_tupled(d) for d in CORPUS_SESSION] + [gen_session(rng_se) for _ in range(130 if thorough else 24)]
+    step_of: dict[int, tuple[int, int]] = {}
+    for si, se in enumerate(sessions):
+        for k, b in enumerate(se["binds"]):
+            step_of[len(cases)] = (si, k)
+            cases.append(("session", versioned(se["base"], b)))
+    session_states: dict[int, list] = {}
+    session_model: Any = None
+    session_changes = {"generations": 0, "after_a_rebinding_of_something_the_model_uses": 0, "same_model_object": 0}
+
     kinds: dict[str, int] = {}
     tags: dict[str, int] = {}
     coq_cases: list[str] = []
@@ -1327,9 +1679,28 @@ def _run_cases(run: Run, rng, fns: Fns, thorough: bool, proofs_ok: bool) -> None
     discarded = 0
     reuse_cases = clash_ok_cases = 0
     for idx, (kind, desc) in enumerate(cases):
-        states = states_for(desc, rng if idx < first_helper_case else rng_h)
+        states = states_for(
+            desc, rng if idx < first_helper_case else rng_h if idx < first_shadow_case else rng_sh if idx < first_session_case else rng_se
+        )
         all_states[idx] = states
-        r = run_impl(desc, fns, states)
+        model = None
+        if idx in step_of:
+            si, k = step_of[idx]
+            se = sessions[si]
+            if k == 0:
+                fns.new_session()
+                session_model = None
+            fns.rebind(se["binds"][k])
+            session_states.setdefault(si, []).append(states)
+            session_changes["generations"] += 1
+            if k and any(se["binds"][k][w] != se["binds"][k - 1][w] for w in _session_refs(se["base"])):
+                session_changes["after_a_rebinding_of_something_the_model_uses"] += 1
+            if k and se["reuse"] and session_model is not None:
+                model = _touch(session_model, se["base"])
+                session_changes["same_model_object"] += 1
+        r = run_impl(desc, fns, states, model)
+        if idx in step_of and step_of[idx][1] == 0:
+            session_model = r.get("source_model")
         bad = oracle(desc, r, states)
         if bad == "discard" or r["tag"] == -1:
             discarded += 1
@@ -1363,12 +1734,13 @@ def _run_cases(run: Run, rng, fns: Fns, thorough: bool, proofs_ok: bool) -> None
         "rebuilt_ok_with_distinct_function_objects_sharing_a_name": clash_ok_cases,
         "oracle_failures_before_classification": len(failures),
         "helper_calling_objects_translated_by_this_tree": {f"{f}:{table()[f][0]}": table()[f][3] for f in HELPER_OBJS},
+        "sessions": {"sessions": len(sessions), **session_changes},
     }
 
     # correspondence inside Coq
     per = 120
     files = {f"c11_{k:04d}": corr_file(list(chunk)) for k, chunk in enumerate(common.chunks(coq_cases, per))}
-    res = common.coq_eval_many(AREA, files, timeout_s=900)
+    res = _eval_many(files, 900)
     mismatching: set[int] = set()
     evaluated: set[int] = set()
     for k, name in enumerate(sorted(files)):
@@ -1393,6 +1765,7 @@ def _run_cases(run: Run, rng, fns: Fns, thorough: bool, proofs_ok: bool) -> None
     # classify oracle failures: a recorded finding iff outside the guard AND the faithful model agrees
     known_counts: dict[str, int] = {}
     n_viol = 0
+    n_sess_viol = 0
     recorded = {f.get("id") for f in common.load_known_findings("C11")}
     for idx, bad in failures:
         kind, desc = cases[idx]
@@ -1400,6 +1773,19 @@ def _run_cases(run: Run, rng, fns: Fns, thorough: bool, proofs_ok: bool) -> None
         if gv and gv <= recorded and translatable(desc) and idx in evaluated and idx not in mismatching:
             for g in gv:
                 known_counts[g] = known_counts.get(g, 0) + 1
+            continue
+        if idx in step_of:
+            if n_sess_viol < 3:
+                n_sess_viol += 1
+                si, k = step_of[idx]
+                se = sessions[si]
+                run.violation(
+                    f"round trip through generate_mxlpy_code, generation {k + 1} of a session in one process "
+                    f"(module-level helpers / numbers rebound between the generations: {se['binds'][: k + 1]}): {bad}",
+                    {"kind": "session", "base": se["base"], "binds": se["binds"][: k + 1], "reuse": se["reuse"],
+                     "states": [[[t, sorted(s.items())] for t, s in sts] for sts in session_states[si][: k + 1]],
+                     "what": bad, "failing_generation": k + 1, "readable": describe(desc), "source": results[idx]["src"]},
+                )
             continue
         if n_viol < 4:
             n_viol += 1
@@ -1447,10 +1833,8 @@ def _run_cases(run: Run, rng, fns: Fns, thorough: bool, proofs_ok: bool) -> None
             if ic is not None:
                 icases.append((spec, ic))
         ccases = [(*HELPER_CALLS[f], bool(table()[f][3])) for f in HELPER_OBJS]
-        tres = common.coq_eval_many(
-            AREA,
-            {"c11_imports": c11_emit.imports_corr_file([c for _s, c in icases]), "c11_calls": c11_emit.calls_corr_file(ccases)},
-            timeout_s=600,
+        tres = _eval_many(
+            {"c11_imports": c11_emit.imports_corr_file([c for _s, c in icases]), "c11_calls": c11_emit.calls_corr_file(ccases)}, 600
         )
         for name, what in (("c11_imports", icases), ("c11_calls", ccases)):
             ok, out = tres[name]
@@ -1481,6 +1865,49 @@ def _run_cases(run: Run, rng, fns: Fns, thorough: bool, proofs_ok: bool) -> None
                 run.note(f"recorded finding {f.get('id')} no longer reproduces on its witness")
     finally:
         emod.close()
+    # how the translator resolves a NAME (NameScope.v): functions whose parameters / local variables are named like
+    # module-level numbers of their module; correspondence shard c11_names + round-trip oracle (harness/c11_names.py)
+    nmods = c11_names.Mods()
+    try:
+        nrng = common.rng_for(run.seed, "c11-names")
+        found = c11_names.scan_kind()
+        groups = [(list(nums), list(fs)) for nums, fs in c11_names.CORPUS] + [c11_names.gen_module(nrng) for _ in range(60 if thorough else 10)]
+        ncases: list[str] = []
+        ncnt: dict[str, int] = {}
+        n_names_viol = 0
+        for nums, fs in groups:
+            try:
+                cs, bad_n, cnt = c11_names.run_one(nmods, nums, fs, found)
+            except Exception as e:  # noqa: BLE001
+                run.broken_correspondence.append(f"names stream: {type(e).__name__}: {str(e)[:200]} on module numbers {nums}")
+                continue
+            ncases += cs
+            for k, v in cnt.items():
+                ncnt[k] = ncnt.get(k, 0) + v
+            for i, fd in enumerate(fs):
+                run.count_case({"names": nums, "fn": fd}, nontrivial=True)
+            for b in bad_n:
+                if n_names_viol < 2:
+                    n_names_viol += 1
+                    run.violation(
+                        f"round trip through generate_mxlpy_code of a function whose names meet module-level numbers {b['numbers']}: "
+                        f"{' '.join(b['function'].split())} at {b['args']}: source model {b['source_value']}, rebuilt model {b['rebuilt_value']} ({b['outcome']})",
+                        b,
+                    )
+        ncnt["module_numbers_found_by_the_scan_of_this_tree"] = found  # type: ignore[assignment]
+        run.coverage["input_distribution"]["names_stream"] = ncnt
+        nres = _eval_many({"c11_names": c11_names.corr_file(ncases)}, 600)
+        ok, out = nres["c11_names"]
+        lists = common.parse_eval_list(out) if ok else None
+        if not ok or not lists:
+            run.broken_correspondence.append(f"correspondence shard c11_names did not evaluate: {out[-300:]}")
+        else:
+            for j in lists[-1][:3]:
+                run.broken_correspondence.append(f"resolution of names: model/implementation disagree on {ncases[j][:400]}")
+            run.coverage["c11_names_cases"] = len(ncases)
+            run.coverage["c11_names_mismatches"] = len(lists[-1])
+    finally:
+        nmods.close()
     run.coverage["failures_matching_recorded_findings"] = known_counts
     # a correspondence mismatch with no oracle failure: look at the mismatching cases' neighbourhood is
     # already covered (the oracle ran on every case); Run.finish reports it as no-failing-input-found
@@ -1515,6 +1942,35 @@ def replay(rep: dict) -> int:
             return 1 if bad else 0
         finally:
             emod.close()
+    if r.get("kind") == "names":
+        common.quiet_impl_logging()
+        return c11_names.replay(r)
+    if r.get("kind") == "session":
+        common.quiet_impl_logging()
+        base = _tupled(r["base"])
+        fns = Fns()
+        try:
+            fns.new_session()
+            model = None
+            code = 0
+            for k, binding in enumerate(r["binds"]):
+                fns.rebind(binding)
+                desc = versioned(base, binding)
+                states = [(t, {int(n): v for n, v in st}) for t, st in r["states"][k]]
+                reuse = model if (k and r.get("reuse") and model is not None) else None
+                res = run_impl(desc, fns, states, _touch(reuse, base) if reuse is not None else None)
+                if k == 0:
+                    model = res.get("source_model")
+                bad = oracle(desc, res, states)
+                print(f"--- generation {k + 1}, module bindings {binding}; functions: {describe(desc)['functions']}")
+                print("generated source:\n", res["src"])
+                print("outcome tag:", res["tag"], res["err"] or "")
+                print("oracle:", bad or "property holds at this generation")
+                if bad and bad != "discard":
+                    code = 1
+            return code
+        finally:
+            fns.close()
     if r.get("kind") != "roundtrip":
         print("nothing to replay: ", rep.get("what"))
         return 1
